@@ -480,6 +480,7 @@ type Contract struct {
 	Props     []string
 	Requires  []*Clause
 	Ensures   []*Clause
+	Checks    []*Clause
 	Modifies  []*Expr
 	ModAll    bool
 	Inline    bool
@@ -529,6 +530,7 @@ type Lemma struct {
 	Props    []string
 	Pkg      string
 	Uses     []*Expr
+	Decreases *Expr // measure for inductive self-use
 }
 
 type Specs struct {
@@ -546,7 +548,7 @@ func newSpecs() *Specs {
 
 var clauseKw = map[string]bool{"func": true, "loop": true, "spec": true, "lemma": true, "props": true, "requires": true,
 	"ensures": true, "modifies": true, "invariant": true, "inline": true, "trusted": true, "pure": true, "allocates": true,
-	"nosafety": true, "use": true, "end": true, "plain": true, "assume": true}
+	"nosafety": true, "use": true, "end": true, "plain": true, "assume": true, "check": true, "decreases": true}
 
 // loadSpecFile parses one contract file. pkg is the package key the file belongs to.
 func (sp *Specs) loadSpecFile(path, pkg string, trustedFile bool) error {
@@ -633,7 +635,7 @@ func (sp *Specs) loadSpecFile(path, pkg string, trustedFile bool) error {
 			} else if curLemma != nil {
 				curLemma.Props = ps
 			}
-		case "requires", "ensures", "invariant":
+		case "requires", "ensures", "invariant", "check":
 			cl, err := parseClause(rest)
 			if err != nil {
 				return fail(err)
@@ -646,6 +648,9 @@ func (sp *Specs) loadSpecFile(path, pkg string, trustedFile bool) error {
 				cur.Requires = append(cur.Requires, cl)
 			case kw == "ensures" && cur != nil:
 				cur.Ensures = append(cur.Ensures, cl)
+			case kw == "check" && cur != nil:
+				// exit assertion over the function's own locals; proved at every return, never assumed by callers
+				cur.Checks = append(cur.Checks, cl)
 			case kw == "requires" && curLemma != nil:
 				curLemma.Requires = append(curLemma.Requires, cl)
 			case kw == "ensures" && curLemma != nil:
@@ -669,6 +674,15 @@ func (sp *Specs) loadSpecFile(path, pkg string, trustedFile bool) error {
 				e.Src = part
 				cur.Modifies = append(cur.Modifies, e)
 			}
+		case "decreases":
+			if curLemma == nil {
+				return fail(fmt.Errorf("decreases outside lemma"))
+			}
+			de, err := parseExpr(strings.TrimSpace(rest))
+			if err != nil {
+				return fail(err)
+			}
+			curLemma.Decreases = de
 		case "allocates":
 			e, err := parseExpr(strings.TrimPrefix(strings.TrimSpace(rest), "<="))
 			if err != nil {
